@@ -51,14 +51,17 @@ const (
 )
 
 var hIP6 = []netip.Addr{
-	netip.MustParseAddr("fe80::aa"),           // 0 LLA x
-	netip.MustParseAddr("fe80::bb"),           // 1 LLA y
-	netip.MustParseAddr("2001:db8::aa"),       // 2 GUA g1
-	netip.MustParseAddr("2001:db8::bb"),       // 3 GUA g2
-	netip.MustParseAddr("ff02::1"),            // 4 multicast
-	netip.MustParseAddr("::"),                 // 5 unspecified
-	netip.MustParseAddr("fd00::1234:aa"),      // 6 ULA (global unicast by netip's definition)
-	netip.MustParseAddr("::ffff:192.168.0.5"), // 7 IPv4-mapped form of an on-LAN IPv4 address: a distinct key from 192.168.0.5
+	netip.MustParseAddr("fe80::aa"),               // 0 LLA x
+	netip.MustParseAddr("fe80::bb"),               // 1 LLA y
+	netip.MustParseAddr("2001:db8::aa"),           // 2 GUA g1
+	netip.MustParseAddr("2001:db8::bb"),           // 3 GUA g2
+	netip.MustParseAddr("ff02::1"),                // 4 multicast
+	netip.MustParseAddr("::"),                     // 5 unspecified
+	netip.MustParseAddr("fd00::1234:aa"),          // 6 ULA (global unicast by netip's definition)
+	netip.MustParseAddr("::ffff:192.168.0.5"),     // 7 IPv4-mapped form of an on-LAN IPv4 address: a distinct key from 192.168.0.5
+	netip.MustParseAddr("::1"),                    // 8 loopback: unicast, but neither link-local nor global unicast
+	netip.MustParseAddr("::ffff:127.0.0.1"),       // 9 IPv4-mapped loopback
+	netip.MustParseAddr("::ffff:255.255.255.255"), // 10 IPv4-mapped limited broadcast
 }
 
 type histCfg struct {
